@@ -190,6 +190,11 @@ func runC14(t *testing.T, c c14Cfg) {
 	pxo := mkParent("px-"+uid, true, "a-"+uid, false)
 	sim.SetNested(pxo, sim.Obj{"matchExpressions": []interface{}{sim.Obj{"key": "app", "operator": "NoSuchOperator", "values": []interface{}{"x"}}}}, "spec", "selector")
 	s.MustCreate(pgvr, pxo)
+	// a managed sibling whose selector is satisfied by objects WITHOUT a label (DoesNotExist): an
+	// orphan with no labels at all matches it
+	peo := mkParent("pe-"+uid, true, "a-"+uid, false)
+	sim.SetNested(peo, sim.Obj{"matchExpressions": []interface{}{sim.Obj{"key": "app", "operator": "DoesNotExist"}}}, "spec", "selector")
+	pe := s.MustCreate(pgvr, peo)
 	r.parent = cw.pa
 	if err := w.start(); err != nil {
 		inconclusive(t, "C14", id, err)
@@ -332,6 +337,19 @@ func runC14(t *testing.T, c c14Cfg) {
 		s.ExtMutate(cgvr, cns, "orphan2-"+uid, func(o sim.Obj) { sim.SetLabels(o, matchA) })
 	})
 	cw.expect("orphan-delete", none, func() { s.ExtDelete(cgvr, cns, "orphan2-"+uid, "") })
+	if !c.GenSel {
+		ke := cw.key(pe)
+		cw.expect("orphan-add(no labels, parent selects by DoesNotExist)", []string{ke}, func() { s.MustCreate(cgvr, child("orphan3", nil)) })
+		cw.expect("orphan-add(empty label map, parent selects by DoesNotExist)", []string{ke}, func() { s.MustCreate(cgvr, child("orphan4", map[string]string{})) })
+		cw.expect("orphan-relabel(leaves the DoesNotExist selection)", none, func() {
+			s.ExtMutate(cgvr, cns, "orphan3-"+uid, func(o sim.Obj) { sim.SetLabels(o, map[string]string{"app": "nobody"}) })
+		})
+		cw.expect("orphan-labels-stripped(enters the DoesNotExist selection)", []string{ke}, func() {
+			s.ExtMutate(cgvr, cns, "orphan3-"+uid, func(o sim.Obj) { delete(o["metadata"].(map[string]interface{}), "labels") })
+		})
+		s.ExtDelete(cgvr, cns, "orphan3-"+uid, "")
+		s.ExtDelete(cgvr, cns, "orphan4-"+uid, "")
+	}
 	// an owned child that shows up already deleting is treated like a delete
 	cw.expect("child-add(owned,already-deleting)", []string{ka}, func() {
 		o := sim.AddOwner(child("owneddel", matchA), cw.pa, true)
@@ -389,7 +407,7 @@ func runC14(t *testing.T, c c14Cfg) {
 	cw.expect("related-delete(selected)", []string{ka}, func() { s.ExtDelete(sim.SecretInfo.GVR(), relNS, "s1-"+uid, "") })
 	// the Zone is selected by name by every managed parent
 	// (pl is pending deletion, held by the finalizer it still carries: it is still a parent to wake)
-	allManaged := append([]string{ka, kb, objKeyOf(sc.ns(), "pc-"+uid), objKeyOf(sc.ns(), "px-"+uid), plKey}, wantF...)
+	allManaged := append([]string{ka, kb, objKeyOf(sc.ns(), "pc-"+uid), objKeyOf(sc.ns(), "px-"+uid), objKeyOf(sc.ns(), "pe-"+uid), plKey}, wantF...)
 	if !c.Cluster {
 		allManaged = none // cluster-scoped objects are never related to a namespaced parent
 	}
